@@ -27,7 +27,7 @@ def check_value(label, v, part):
         pp = importlib.import_module('prettyprinter.prettyprinter')
         from prettyprinter.layout import layout_smart
         from prettyprinter.render import default_render_to_str
-        ctx = pp.PrettyContext(indent=4, depth_left=float('inf'), visited=set(), max_seq_len=1000, sort_dict_keys=False)
+        ctx = pp.PrettyContext(indent=4, depth_left=float('inf'), max_seq_len=1000, sort_dict_keys=False)
         doc = pp.pretty_python_value(v, ctx)
         if not pp.is_commented(doc):
             for w0 in (max(1, L // 3), max(1, L - 1)):
